@@ -64,7 +64,8 @@ Fixpoint resolve_external (hops : nat) (fs : node) (p : list str) : option (str 
   | S h =>
       match lstat fs p with
       | Ok (Link t) =>
-          let abs := if is_rooted t then t else fjoin (join_abs (removelast p)) t in
+          (* filepath.Clean of the absolute target (Join cleans the relative one) *)
+          let abs := if is_rooted t then clean t else fjoin (join_abs (removelast p)) t in
           match lstat fs (comps_of abs) with
           | Ok (Link _) => resolve_external h fs (comps_of abs)
           | Ok n => Some (abs, n)
